@@ -349,7 +349,14 @@ class GreedySpan:
             # span will have multiple starting points, contract these
             o_nodes = list(region)
             o_inputs = [inputs[i] for i in o_nodes]
-            o_ssa_path = ssa_greedy_optimize(o_inputs, output, size_dict)
+            # indices leading out of the region must also be kept
+            o_output = [
+                ix
+                for ix in dict.fromkeys(ix for term in o_inputs for ix in term)
+                if (ix in output)
+                or any(j not in region for j in self.hg.get_edge(ix))
+            ]
+            o_ssa_path = ssa_greedy_optimize(o_inputs, o_output, size_dict)
             seq = []
             for pi, pj in o_ssa_path:
                 merges[o_nodes[pi]] = o_nodes[pj]
